@@ -73,6 +73,13 @@ Theorem adopt_rejects : forall flags hdr addr len res abi,
 Proof. exact hw_adopt_rejects. Qed.
 Print Assumptions adopt_rejects.
 
+(* for EVERY address and length: each single-bit flip of the stored header_version, header_length, mmap_address, mmap_length
+   and of the stored topology ABI, and the ABI values abi+-1, abi+-0x100, 0x38000, other majors, 0, ~0, is refused with EINVAL
+   (the table the harness applies to the file, "rejectsweep") *)
+Theorem adopt_rejects_every_bit_flip : forall addr len, corruption_table_ok addr len = true.
+Proof. exact hw_corruption_table. Qed.
+Print Assumptions adopt_rejects_every_bit_flip.
+
 (* the adopted copy IS the writer's copy: C12's dup_abs_equal / dup_footprint_fresh instantiated with the bump allocator *)
 Theorem adopt_equal :
   forall h at0 base, stored h at0 -> (forall x, In x (addrs at0) -> x < base + SHMEM_HEADER_LENGTH) ->
